@@ -122,6 +122,13 @@ CHECKS = {
                      'untouched when absent), Delay (out[c][i] = ring[c].push(in[c][i])), signal node (min(CHANNELS, outputs) channels, Buffer::LEN frames, one next per frame, scatter), GraphNode (copy in, process once, copy out), '
                      'seven forwarding wrappers. Delay length / nested-graph equivalence follow with C06 / C09 (paper).',
                 note=TB + '; core iterator adaptors position-wise in order; registry dasp_slice / dasp_ring_buffer API as documented.'),
+    'C07': dict(level='other', ref='DESIGN.md §5 C07',
+                technique='whole-workspace may-allocate effect analysis over MIR: resolved-callee crate-of-origin classification, heap-owning drop / owned-value rule, frozen exception table, positive control',
+                text='Every body of the eleven library crates (std and no_std builds) is classified: no call into alloc/std outside a read allowlist of non-allocating accessors, no drop or creation/move of a '
+                     'heap-owning value, no foreign call, except in the documented exceptions (bus, Rc fork creation, boxed slices, constructors/Clone bodies); graph clause: process() only clears/pushes the processor-owned '
+                     'input list and drives the processor-owned traversal, and nothing but the constructor assigns that storage. A sound over-approximation of the runtime statement: calls through type parameters are '
+                     'attributed to the user; petgraph amortisation is a paper argument.',
+                note=TB + '; `core` cannot allocate; the allowlisted accessors were read; positive control must see >= 20 allocating sites inside the exception table.'),
 }
 
 NOT_YET = 'check not implemented yet in this revision of /verif (see DESIGN.md §10 build order)'
